@@ -171,9 +171,7 @@ impl Sm2PublicKey {
     pub fn from_hex_string(hex_str: &str) -> Result<Self, FromHexError> {
         let bytes = hex::decode(hex_str);
         match bytes {
-            Ok(b) => Ok(Self {
-                point: Point::from_byte(b.as_slice()).unwrap(),
-            }),
+            Ok(b) => Self::new(b.as_slice()).map_err(|_| FromHexError::InvalidStringLength),
             Err(e) => Err(e),
         }
     }
